@@ -21,6 +21,7 @@ macro_rules! dispatch {
             "C08" => $f::<c08::C08>($($arg),*),
             "C09" => $f::<c09::C09>($($arg),*),
             "C10" => $f::<c10::C10>($($arg),*),
+            "C11" => $f::<c11::C11>($($arg),*),
             "C12" => $f::<c12::C12>($($arg),*),
             "C13" => $f::<c13::C13>($($arg),*),
             other => {
